@@ -717,9 +717,16 @@ func runConcOnce(p *Program, prefix []Step, block Step, cache map[string]concRef
 		if strings.Contains(label, "#d") && !twoHandles {
 			return false
 		}
-		// never park a caller inside a write transaction: the other connection
-		// would wait for the lock on real time (busy handler)
-		return !disk.WriteLocked()
+		// with a second connection on the file, never park a caller inside a write
+		// transaction: the other connection's busy handler would give up and its
+		// call fail with "database is locked", which no sequential order explains.
+		// With one handle the other caller waits for the pooled connection instead
+		// (recognised as blocked), and a transaction left open on a connection that
+		// went back to the pool is exactly what has to be interleaved with.
+		if twoHandles && disk.WriteLocked() {
+			return false
+		}
+		return true
 	})
 	sched.Install()
 	defer UninstallSched()
